@@ -58,6 +58,7 @@ _MIN_CE = {f"ce:Payload.__{m}__": 10 for m in _PAYLOAD_METHODS}
 _MIN_CE.update({f"ce:CoordPayload.__{m}__": 10 for m in _ELEM_METHODS})
 
 SPEC = {
+    "anchors": ["fibertree.core.payload:Payload.__add__", "fibertree.core.payload:Payload.__radd__", "fibertree.core.payload:Payload.__iadd__", "fibertree.core.payload:Payload.__sub__", "fibertree.core.payload:Payload.__rsub__", "fibertree.core.payload:Payload.__isub__", "fibertree.core.payload:Payload.__mul__", "fibertree.core.payload:Payload.__rmul__", "fibertree.core.payload:Payload.__imul__", "fibertree.core.payload:Payload.__truediv__", "fibertree.core.payload:Payload.__floordiv__", "fibertree.core.payload:Payload.__eq__", "fibertree.core.payload:Payload.__lt__", "fibertree.core.payload:Payload.__le__", "fibertree.core.payload:Payload.__gt__", "fibertree.core.payload:Payload.__ge__", "fibertree.core.payload:Payload.__ne__", "fibertree.core.payload:Payload.__and__", "fibertree.core.payload:Payload.__or__", "fibertree.core.payload:Payload.__lshift__", "fibertree.core.payload:Payload.__ilshift__", "fibertree.core.coord_payload:CoordPayload.__add__", "fibertree.core.coord_payload:CoordPayload.__iadd__", "fibertree.core.coord_payload:CoordPayload.__imul__", "fibertree.core.coord_payload:CoordPayload.__ilshift__", "fibertree.core.coord_payload:CoordPayload.__truediv__", "fibertree.core.coord_payload:CoordPayload.__eq__", "fibertree.core.coord_payload:CoordPayload.__lt__", "fibertree.core.fiber:Fiber.__add__", "fibertree.core.fiber:Fiber.__radd__", "fibertree.core.fiber:Fiber.__iadd__", "fibertree.core.fiber:Fiber.__mul__", "fibertree.core.fiber:Fiber.__rmul__", "fibertree.core.fiber:Fiber.__imul__"],
     "rule": ("cases = (i) operator table: every operator of {+ - * / // << & |, == != < <= > >=} and every in-place form "
              "{+= -= *= /= //= &= |= <<=(assign)} x operand kind {box-box, box-scalar, scalar-box, elem-elem, elem-scalar, "
              "scalar-elem, elem-box, box-elem} x every ordered pair of a fixed value set (ints, floats, zero, negative, "
